@@ -112,7 +112,7 @@ def run(ctx):
     rep = ctx.rep
     rng = Rng(ctx.seed, 17)
     items = []
-    for i in range(ctx.budget(1200, 50000)):
+    for i in range(ctx.budget(1200, 250000)):
         r = rng.fork(i)
         specs = elems.rand_specs(r)
         key = rand_key(r)
